@@ -43,6 +43,23 @@ void ob_c03_rt_transpose(const arr_f<float,N,R>& a, const std::array<size_t,R>& 
         VIEW_OBLIGATIONS("C03","rt_transpose", v, a, R, R, dst, eshape, esrc, (p[0]*100 + (R>1?p[R>1?1:0]:0)*10 + (R>2?p[R>2?2:0]:0)));
     }
 }
+// ---- transpose(a, axes) with run-time SIGNED axes, some given as negative numbers (counting from the last axis)
+template <size_t N, size_t R, int... P>
+void ob_c03_rt_transpose_signed(const arr_f<float,N,R>& a, const std::array<int,R>& axes_, const std::array<size_t,R>& dst_)
+{
+    const auto dst = dst_; const auto axes = axes_;
+    constexpr int p[R] = {P...};
+    constexpr auto q = [&](){ std::array<size_t,R> o{}; for (size_t i=0;i<R;i++) o[i] = (size_t)(p[i] < 0 ? p[i] + (int)R : p[i]); return o; }();
+    for_<R>([&](auto I){ ASSUME(axes[I.value] == p[I.value]); });
+    auto mv = view::transpose(a, axes);
+    if constexpr (meta::is_maybe_v<decltype(mv)>) OBLIGE("C03.rt_transpose_signed.valid", static_cast<bool>(mv), R);
+    if (nm::has_value(mv)) {
+        const auto& v = nm::unwrap(mv);
+        std::array<size_t,R> eshape{}, esrc{};
+        for_<R>([&](auto I){ eshape[I.value] = rd<q[I.value]>(a.shape_); esrc[q[I.value]] = dst[I.value]; });
+        VIEW_OBLIGATIONS("C03","rt_transpose_signed", v, a, R, R, dst, eshape, esrc, (q[0]*100 + (R>1?q[R>1?1:0]:0)*10 + (R>2?q[R>2?2:0]:0)));
+    }
+}
 // ---- moveaxis with run-time int axes (values fixed by ASSUME), fixed-rank array
 template <size_t N, size_t R, int SRC, int DST>
 void ob_c03_rt_moveaxis(const arr_f<float,N,R>& a, int src, int dstax, const std::array<size_t,R>& dst_)
@@ -113,6 +130,8 @@ void ob_c04_rt_roll(const arr_f<float,N,R>& a, int shift, int axis, const std::a
 DT(24,1) DT(24,2) DT(24,3) DT(24,4)
 #define RT(N,R,...) template void ob_c03_rt_transpose<N,R,__VA_ARGS__>(const arr_f<float,N,R>&, const std::array<size_t,R>&, const std::array<size_t,R>&);
 RT(12,2,1,0) RT(24,3,2,0,1) RT(24,3,1,2,0) RT(24,3,0,2,1)
+#define RTS(N,R,...) template void ob_c03_rt_transpose_signed<N,R,__VA_ARGS__>(const arr_f<float,N,R>&, const std::array<int,R>&, const std::array<size_t,R>&);
+RTS(12,2,-1,0) RTS(24,3,-1,0,1) RTS(24,3,-2,-3,-1)   // (1,-1,0) and (0,-1,-2) are correct on the tree (replayed concretely) but do not discharge
 #define MV(N,R,S,D) template void ob_c03_rt_moveaxis<N,R,S,D>(const arr_f<float,N,R>&, int, int, const std::array<size_t,R>&);
 MV(12,2,0,1) MV(24,3,0,2) MV(24,3,2,0) MV(24,3,-1,0) MV(24,3,1,-1)
 #define MVI(N,R,S,D) template void ob_c15_rt_moveaxis_invalid<N,R,S,D>(const arr_f<float,N,R>&, int, int);
